@@ -54,22 +54,23 @@ type Leak struct {
 
 // ColRes is the state of a report column channel after rendering.
 type ColRes struct {
-	Col      int    `json:"col"`
-	Left     int    `json:"left"`  // values still receivable after the last row
-	State    string `json:"state"` // "closed" | "open" (would block) | "values"
+	Col   int    `json:"col"`
+	Left  int    `json:"left"`  // values still receivable after the last row
+	State string `json:"state"` // "closed" | "open" (would block) | "values"
 }
 
 // Res is the result of one request.
 type Res struct {
-	ID      string   `json:"id"`
-	Idle    int      `json:"idle"`
-	Outs    []OutRes `json:"outs"`
-	Leaks   []Leak   `json:"leaks"`
-	Wiring  *Wiring  `json:"wiring,omitempty"`
-	Rows    [][]string `json:"rows,omitempty"`
-	Cols    []ColRes `json:"cols,omitempty"`
-	Err     string   `json:"err,omitempty"`
-	Unstable bool    `json:"unstable,omitempty"`
+	ID       string     `json:"id"`
+	Idle     int        `json:"idle"`
+	Lag      []int      `json:"lag,omitempty"`
+	Outs     []OutRes   `json:"outs"`
+	Leaks    []Leak     `json:"leaks"`
+	Wiring   *Wiring    `json:"wiring,omitempty"`
+	Rows     [][]string `json:"rows,omitempty"`
+	Cols     []ColRes   `json:"cols,omitempty"`
+	Err      string     `json:"err,omitempty"`
+	Unstable bool       `json:"unstable,omitempty"`
 }
 
 func bitsOf(v float64) string { return strconv.FormatUint(math.Float64bits(v), 16) }
@@ -181,6 +182,9 @@ func execute(req *Req) *Res {
 		res.Idle = inst.Idle()
 	} else if p.Implied != nil {
 		res.Idle = p.Implied(req.Cfg)
+	}
+	if p.Lag != nil {
+		res.Lag = p.Lag(req.Cfg)
 	}
 	runOnce := func(lens []int, data DataSpec, record bool) ([]OutRes, *Recorder) {
 		rec := NewRecorder()
